@@ -178,7 +178,8 @@ def reduceRest (r : Rec) (method : Val → Val → M Val) : Val → Val → M Va
     let v ← r.eval a
     let acc' ← method acc v
     reduceRest r method acc' d
-  | acc, _ => pure acc
+  | acc, .nil => pure acc
+  | _, _ => M.throw .typeMismatch      -- `rest.car_and_then` on a non-list tail
 
 def reduceWith (r : Rec) (method : Val → Val → M Val) (args : Val) : M Val :=
   match args with
@@ -186,9 +187,11 @@ def reduceWith (r : Rec) (method : Val → Val → M Val) (args : Val) : M Val :
     let first ← r.eval a
     match d with
     | .cons .. => reduceRest r method first d
-    | _ =>
+    | .nil =>
       if first.isNumber then pure first else M.throw .typeMismatch
-  | _ => pure .nil
+    | _ => M.throw .typeMismatch          -- improper argument list
+  | .nil => pure .nil
+  | _ => M.throw .typeMismatch
 
 def foldVals (method : Val → Val → M Val) : Val → List Val → M Val
   | acc, [] => pure acc
@@ -476,6 +479,12 @@ def nextArg (r : Rec) (args : Val) : M (Val × Val) :=
   | .nil => pure (.nil, .nil)
   | _ => M.throw .missingArgument
 
+/-- extraction of an `Option<_>` parameter: an exhausted or improper rest yields nil -/
+def nextArgOpt (r : Rec) (args : Val) : M (Val × Val) :=
+  match args with
+  | .cons _ a d => do let v ← r.eval a; pure (v, d)
+  | _ => pure (.nil, .nil)
+
 def intOf (v : Val) : M Int :=
   match v with
   | .int n => pure n
@@ -634,18 +643,20 @@ def callMacro (b : Bi) (args : Val) : M Val :=
     let whileS ← symVal "while"
     let ifLetS ← symVal "if-let"
     let prognS ← symVal "progn"
-    let (xs, _) := rest.spine
-    let body ← mkListM (prognS :: (if rest.isCons then xs else []) ++ [.t])
+    -- `list!(,progn ,@rest ,t)`
+    let acc ← ({ rev := [prognS] } : Acc).append rest
+    let acc ← acc.push .t
+    let body ← acc.build
     let inner ← mkListM [ifLetS, spec, body, .nil]
     mkListM [whileS, inner]
   | .threadFirstArrow | .threadFirst => do
     let x ← liftE (carV args)
     let forms ← liftE (cdrV args)
-    threadForms true x forms.elems
+    if forms.spine.2.isNil then threadForms true x forms.elems else M.throw .typeMismatch
   | .threadLastArrow | .threadLast => do
     let x ← liftE (carV args)
     let forms ← liftE (cdrV args)
-    threadForms false x forms.elems
+    if forms.spine.2.isNil then threadForms false x forms.elems else M.throw .typeMismatch
   | .quote_ =>
     match args with
     | .cons _ a .nil => pure (.quote a)
@@ -826,7 +837,9 @@ def callBuiltin (r : Rec) (b : Bi) (args : Val) : M Val :=
     let (body', _) ← captureVars ps.all body []
     let i ← newId
     pure (.lambda i ps body')
-  | .declare_ => pure .nil
+  | .declare_ => do
+    let _ ← nextForm args
+    pure .nil
   | .eval_ => do
     let (v, _) ← nextArg r args
     r.eval v
@@ -872,7 +885,8 @@ def callBuiltin (r : Rec) (b : Bi) (args : Val) : M Val :=
       | .cons _ var srest =>
         let (listF, srest2) := match srest with | .cons _ l r2 => (l, r2) | _ => (Val.nil, Val.nil)
         let (resF, extra) := match srest2 with | .cons _ x e => (x, e) | _ => (Val.nil, Val.nil)
-        if !extra.isNil then M.throw .typeMismatch
+        let improper := (!srest.isList) || (!srest2.isList)
+        if improper || !extra.isNil then M.throw .typeMismatch
         else do
           let l ← r.eval listF
           let first ← liftE (carV l)
@@ -891,7 +905,8 @@ def callBuiltin (r : Rec) (b : Bi) (args : Val) : M Val :=
       | .cons _ var srest =>
         let (countF, srest2) := match srest with | .cons _ l r2 => (l, r2) | _ => (Val.nil, Val.nil)
         let (resF, extra) := match srest2 with | .cons _ x e => (x, e) | _ => (Val.nil, Val.nil)
-        if !extra.isNil then M.throw .typeMismatch
+        let improper := (!srest.isList) || (!srest2.isList)
+        if improper || !extra.isNil then M.throw .typeMismatch
         else do
           let cv ← r.eval countF
           let count ← intOf cv
@@ -918,7 +933,7 @@ def callBuiltin (r : Rec) (b : Bi) (args : Val) : M Val :=
     liftE (nthcdrV n l)
   | .last_ => do
     let (l, rest) ← nextArg r args
-    let (nv, _) ← nextArg r rest
+    let (nv, _) ← nextArgOpt r rest
     let n ← if nv.isNil then pure none else do let i ← intOf nv; pure (some i)
     liftE (lastV l n)
   | .mapcar | .seqMap => do
@@ -942,7 +957,7 @@ def callBuiltin (r : Rec) (b : Bi) (args : Val) : M Val :=
   | .seqFind => do
     let (fv, rest) ← nextArg r args
     let (seq, rest2) ← nextArg r rest
-    let (dflt, _) ← nextArg r rest2
+    let (dflt, _) ← nextArgOpt r rest2
     let f ← r.eval fv
     findVals f dflt seq.elems
   | .sort_ => do
@@ -959,14 +974,14 @@ def callBuiltin (r : Rec) (b : Bi) (args : Val) : M Val :=
   | .assoc_ => do
     let (key, rest) ← nextArg r args
     let (alist, rest2) ← nextArg r rest
-    let (testfn, _) ← nextArg r rest2
+    let (testfn, _) ← nextArgOpt r rest2
     assocM key alist testfn
   | .alistGet => do
     let (key, rest) ← nextArg r args
     let (alist, rest2) ← nextArg r rest
-    let (dflt, rest3) ← nextArg r rest2
-    let (_remove, rest4) ← nextArg r rest3
-    let (testfn, _) ← nextArg r rest4
+    let (dflt, rest3) ← nextArgOpt r rest2
+    let (_remove, rest4) ← nextArgOpt r rest3
+    let (testfn, _) ← nextArgOpt r rest4
     let x ← assocM key alist testfn
     if truthy x then liftE (cdrV x) else pure dflt
   | .plistGet => do
@@ -1098,7 +1113,7 @@ def callBuiltin (r : Rec) (b : Bi) (args : Val) : M Val :=
     let s ← strOf v
     makeSymbolM s
   | .gensym => do
-    let (pv, _) ← nextArg r args
+    let (pv, _) ← nextArgOpt r args
     let pfx ← if pv.isNil then pure "g" else strOf pv
     let cn ← internM "gensym-counter"
     let c ← M.get
@@ -1136,7 +1151,7 @@ def callBuiltin (r : Rec) (b : Bi) (args : Val) : M Val :=
     mkListM [a, b']
   | .hOpt => do
     let (a, rest) ← nextArg r args
-    let (b', _) ← nextArg r rest
+    let (b', _) ← nextArgOpt r rest
     if b'.isNil then do let s ← mkStr "none"; mkListM [a, s] else mkListM [a, b']
   | .hRest => do
     let (a, rest) ← nextArg r args
@@ -1146,7 +1161,7 @@ def callBuiltin (r : Rec) (b : Bi) (args : Val) : M Val :=
   | .hInt => do
     let (av, rest) ← nextArg r args
     let a ← intOf av
-    let (bv, _) ← nextArg r rest
+    let (bv, _) ← nextArgOpt r rest
     let b' ← if bv.isNil then pure 7 else intOf bv
     -- wrapping i64 arithmetic of the host function
     let wrap (n : Int) : Int := ((n - i64Min) % 18446744073709551616) + i64Min
@@ -1158,7 +1173,7 @@ def callBuiltin (r : Rec) (b : Bi) (args : Val) : M Val :=
   | .hStr => do
     let (av, rest) ← nextArg r args
     let a ← strOf av
-    let (bv, _) ← nextArg r rest
+    let (bv, _) ← nextArgOpt r rest
     let b' ← if bv.isNil then pure "-" else strOf bv
     mkStr (a ++ "|" ++ b')
   | .hBool => do
